@@ -247,6 +247,13 @@ def part_generated(args):
         run("sd", hdr.SOMEIPSDHeader.parse, refcodec.enc_sd(0xC0, [e1], opts), f"unreferenced option at {pos}")
     e1 = dict(type=1, i1=0, i2=3, n1=2, n2=2, service=1, instance=2, major=3, ttl=4, last=5)
     run("sd", hdr.SOMEIPSDHeader.parse, refcodec.enc_sd(0xC0, [e1], [a, b, c, a, b]), "duplicated options instead of shared ones")
+    # messages that look like the TCP "magic cookies" (and near misses), alone, in front of and behind another message
+    other = refcodec.enc_someip(0x1234, 0x0001, 1, 2, 1, 0x00, 0, b"abc")
+    for method, mtype in ((0x0000, 0x01), (0x8000, 0x02), (0x0000, 0x02), (0x8000, 0x01), (0x0001, 0x01)):
+        for client, session in ((0xDEAD, 0xBEEF), (0xDEAD, 0xBEEE)):
+            cookie = refcodec.enc_someip(0xFFFF, method, client, session, 1, mtype, 0, b"")
+            for data, what in ((cookie, "alone"), (cookie + other, "in front"), (other + cookie, "behind"), (cookie + cookie + other, "twice")):
+                run("someip", hdr.SOMEIPHeader.parse, data, f"magic-cookie lookalike {method:#x}/{mtype:#x}/{client:#x}{session:04x} {what}")
     # whole SOME/IP messages around the SD payloads: every message type / return code
     for mt in refcodec.MESSAGE_TYPES:
         for rcode in refcodec.RETURN_CODES:
